@@ -174,6 +174,42 @@ def adversarial(rng, big=False):
             yield "adversarial:code-int-fields:%s:v%s" % (name, tag), hdr + b"c" + le32(val) * 6 + cw[1 + 24:]
 
 
+def ref_chain(v, depth, fanout=1):
+    """A value nested `depth` levels deep WITHOUT nested marshal objects: level k is a FLAG_REF tuple whose `fanout`
+    elements are all back-references to level k-1; the last element of co_consts is a frozenset holding the top level, so
+    the loader has to hash it.  fanout=1: deep chain (hash recursion depth); fanout=2: DAG whose naive hash costs 2^depth."""
+    parts = [bytes([ord("(") | 0x80]) + le32(1) + b"N"]  # ref 0
+    for k in range(1, depth):
+        parts.append(bytes([ord("(") | 0x80]) + le32(fanout) + (b"r" + le32(k - 1)) * fanout)
+    parts.append(b">" + le32(1) + b"r" + le32(depth - 1))
+    consts = b"(" + le32(len(parts)) + b"".join(parts)
+    return HEADERS[v] + code_wrapper(v, consts)
+
+
+def dropbox_headers(rng):
+    """Files with the dropbox magic (62135) whose top-level encrypted code object has extreme key / length fields."""
+    hdr = struct.pack("<H", 62135) + b"\r\n" + le32(rng.getrandbits(32))  # 8-byte header as in 2.5, then the stream
+    for b, bname in ((0, "0"), (1, "1"), (15, "15"), (16, "16"), (17, "17"), (0xFFFFFFFF, "-1"), (0xFFFFFFF9, "-7"), (0xFFFFFFF1, "-15"), (0xFFFFFFF0, "-16"),
+                     (0x7FFFFFFF, "2^31-1"), (0x80000000, "-2^31"), (64, "64"), (4096, "4096")):
+        for a in (0, 1, 0xFFFFFFFF, rng.getrandbits(32)):
+            body = bytes(rng.randrange(256) for _ in range(rng.choice([0, 16, 64, 200])))
+            yield "adversarial:dropbox-header:b=%s" % bname, hdr + b"c" + b"i" + le32(a) + b"i" + le32(b) + body
+            yield "adversarial:dropbox-header-raw:b=%s" % bname, hdr + b"c" + le32(a) + le32(b) + body
+
+
+def dropbox_streams(rng):
+    """Dropbox files whose (unencrypted) top-level value has hostile length fields."""
+    hdr = struct.pack("<H", 62135) + b"\r\n" + le32(rng.getrandbits(32))
+    for count, cname in ((100000, "1e5"), (3000000, "3e6"), (0x7FFFFFFF, "2^31-1")):
+        for code in (b"[", b"("):
+            for neg in (5, 1, 9):
+                # each element is a string of length -neg: a reader that accepts it walks backwards and re-reads itself
+                yield "adversarial:dropbox-negative-length:count=%s" % cname, hdr + code + le32(count) + b"s" + le32((-neg) & 0xFFFFFFFF) + b"N" * 40
+    for t in (b"s", b"t", b"u", b"l", b"(", b"[", b"<", b">"):
+        for n in (0x7FFFFFFF, 0x80000000, 0xFFFFFFFF, 0x00FFFFFF):
+            yield "adversarial:dropbox-length:%s" % t.decode(), hdr + t + le32(n) + b"N" * 30
+
+
 def big_containers(v=(3, 8)):
     """n-element containers of 1-byte objects, for the scaling monitor."""
     hdr = HEADERS[v]
